@@ -232,7 +232,7 @@ def c05_3(ctx):
         for e in sets:
             oc = or_consts(e.value)
             if oc is not None and oc[1]:
-                ctx.check(oc[0] == 0x40, "only-the-forkid-bit-added:%s" % cls, ctx.where(sf, e.node),
+                ctx.check(not (oc[0] & ~0x40), "only-the-forkid-bit-added:%s" % cls, ctx.where(sf, e.node),
                           "%s.solve hands on `%s`: it ORs 0x%02x into the requested hash type, which adds bits besides SIGHASH_FORKID (0x40) -- a requested NONE or NONE|ANYONECANPAY is signed as another type" % (cls, norm(e.value)[:50], oc[0]),
                           sample={"class": cls, "ored_into_the_request": "0x%02x" % oc[0]})
         c = ctx.p.cls(rel, cls)
